@@ -26,8 +26,8 @@ import (
 // Sanitize on representative-path + token (no cloning of live objects).
 
 func init() {
-	common := "explicit-state breadth-first search over states of the real token loop: state = (token-loop locals read from the running implementation via the overlay hook, stack of open input elements (which fixes the tokenizer's raw-text mode)); " +
-		"transitions = feed one more token of a well-nested document over the grammar W (text with a unique marker; open / matching close of 18 element forms (incl. pattern-matched names with non-ASCII and quote characters): kept with attributes, kept bare, dropped for lack of attributes, disallowed, disallowed skip-content, pattern-allowed with and without AllowNoAttrs, RCDATA / raw-text, script, style; void and self-closing leaves; comment), " +
+	common := "explicit-state breadth-first search over states of the real token loop: state = (token-loop locals read from the running implementation via the overlay hook, stack of open input elements (which fixes the tokenizer's raw-text mode), stack of elements the output leaves open (which the balance oracle depends on)); " +
+		"transitions = feed one more token of a well-nested document over the grammar W (text with a unique marker; open / matching close of 18 element forms (incl. pattern-matched names with non-ASCII and quote characters): kept with attributes, kept bare, dropped for lack of attributes, disallowed, disallowed skip-content, pattern-allowed with and without AllowNoAttrs, RCDATA / raw-text, script, style; void and self-closing leaves, incl. a void element that is in the default skip set; comment), " +
 		"nesting depth <=3 (thorough 4) and ANY document length (siblings collapse onto visited states); a complete skipped element must leave no trace (C08: if the loop state after it differs from the state before it, every continuation <X>text</X> and every leaf must behave as without it); one search per policy (17 policies: a pattern that matches skip-set names, every void element allowed with attributes only, AllowUnsafe with and without script allowed, default and modified skip sets, element patterns with and without AllowNoAttrs, iframe allowed with attributes only, space insertion, comments, un-skipped script/style). Successor = fresh run of the real Sanitize on the state's shortest path plus the token. "
 	register(&run.Check{
 		ID:    "C08",
